@@ -597,7 +597,7 @@ func init() {
 			return 300
 		},
 		Shards: func(tier string) int { return 8 },
-		Rule:   "programs = 17 loop kinds (tail, bounded non-tail and mutual recursion, recursive macro expansion, cond/and/or loops, map/apply/reduce/swap! over a looping closure, loops inside vector/map literals, let bindings and -> forms, sleep, deref of a sleeping or looping future) x 13 AST node kinds evaluated right after the cancelling tick, bare and inside try/catch/finally nests to depth 4 whose handlers and finally bodies are constants, loops, sleeps or further tries; cancel mode: the context is cancelled from inside the k-th tick! (k in 1,2,3,10,100,1000) of the evaluating thread - zero further ticks by that thread and a timeout error are required (no clock involved); deadline mode (300-700 ms): at most one tick per thread later than the observed Done, return within 5 s, and a try whose outermost handler is a constant must return that constant; blocking builtins under asynchronous cancel must return within 5 s (canary-qualified); distinct = (loop kind, wrapper nest / node kind)",
+		Rule:   "programs = 17 loop kinds (tail, bounded non-tail and mutual recursion, recursive macro expansion, cond/and/or loops, map/apply/reduce/swap! over a looping closure, loops inside vector/map literals, let bindings and -> forms, sleep, deref of a sleeping or looping future) x 13 AST node kinds evaluated right after the cancelling tick, bare and inside try/catch/finally nests to depth 4 whose handlers and finally bodies are constants, loops, sleeps or further tries; cancel mode: the context is cancelled from inside the k-th tick! (k in 1,2,3,10,100,1000) of the evaluating thread - zero further ticks by that thread and a timeout error are required (no clock involved); deadline mode (300-700 ms): at most one tick per thread later than the observed Done, return within 5 s, and a try whose outermost handler is a constant must return that constant; blocking builtins under asynchronous cancel must return within 5 s (canary-qualified); distinct = (loop kind, wrapper nest / node kind); blocking programs also run after an earlier evaluation on the same environment whose own context lives on (a watcher future dereferencing the same future, a swap! busy on the same atom); under natural deadlines nested tries (lexical, through a call, with a finally between) must return the innermost handler's constant; a missed handler is re-examined with 4x and 16x the deadline before it is reported",
 		Assume: []string{"futures still running in the background after EVAL returned are not in the statement", "a wall-clock observation made while the load canary saw > 250 ms lateness is discarded"},
 		Finish: func(m *fw.Merged) {
 			m.Floor("programs", 200)
